@@ -509,7 +509,7 @@ func (sc *scenario) finish(c *core.Ctx, t *core.Trace, emit *sync.Mutex) {
 	for _, cr := range sc.col.all() {
 		select {
 		case <-cr.done:
-		case <-time.After(waitMax):
+		case <-time.After(waitMax / 3):
 			timedOut = true
 		}
 	}
